@@ -102,11 +102,24 @@ def validate_c17(ctx):
         for nm, fn, args in (("x", g.rotation_matrix_x, (y,)), ("y", g.rotation_matrix_y, (y,)), ("z", g.rotation_matrix_z, (y,)), ("ypr", g.rotation_matrix_ypr, (y, p, r))):
             lines.append("rot " + nm + " " + " ".join(str(f2b(v)) for v in args))
             meta.append((nm, np.asarray(fn(*args)).ravel(), {"angles": list(args)}))
+    # the three einsum conventions on one point: a non-symmetric basis makes every transposition visible
+    import fixtures
+    for _ in range(20 * ctx.scale):
+        B = fixtures.rot3(rng) if rng.random() < 0.7 else rng.normal(size=(3, 3))
+        v, o_ = rng.normal(size=3), rng.normal(size=3)
+        for which, val in (("to", g.to_gcs(v, B, o_)), ("from", g.from_gcs(v, B, o_)), ("rot0", g.rotate(v, B)), ("rotc", g.rotate(v, B, o_))):
+            lines.append(f"frame {which} {fl(v)} {fl(B.ravel())} {fl(o_)}")
+            meta.append(("frame_" + which, np.asarray(val, dtype=float).ravel(), {"point": v.tolist(), "matrix": B.tolist(), "origin_or_centre": o_.tolist()}))
     ans = ctx.drive_src(lines)
     if ans is None:
         return
     for (nm, want, cj), a in zip(meta, ans):
         got = _floats(a)
+        if nm.startswith("frame_"):
+            ctx.count("translation_validated:" + {"to": "to_gcs", "from": "from_gcs", "rot0": "rotate", "rotc": "rotate"}[nm[6:]])
+            if got is None or not _close(got, want, float(np.abs(want).max()) + 5.0, ulps=16):
+                ctx.disagree(f"translation validation: the generated {nm[6:]} convention gives {got}, the Python function {want.tolist()}", {"op": "srcval", "function": nm, **cj})
+            continue
         ctx.count("translation_validated:rotation_matrix_" + nm)
         # x, y, z: the same libm calls, bit for bit; ypr: matmul may use another summation order
         ok = got is not None and (np.array_equal(np.asarray(got), want) if nm != "ypr" else _close(got, want, 1.0, ulps=8))
